@@ -214,6 +214,15 @@ func xzWriteCase(r *core.Run, prop string, p XZWCase) {
 				fmt.Sprintf("%d bytes then io.EOF", len(want)))
 		}
 		streamClass = errClass(err)
+		// the reader's own (smaller) dictionary capacity must not matter: the declared size wins
+		if rp == nil && proto == "" && len(sink) <= 400000 {
+			out2, err2, proto2, rp2 := xzDecode(sink, 4096, false)
+			if rp2 != nil || proto2 != "" || !bytes.Equal(out2, want) || errClass(err2) != "EOF" {
+				r.Violate(cs, "xzW→xzR(DictCap 4096) mismatch "+site, desc,
+					fmt.Sprintf("reader with ReaderConfig.DictCap=4096: %d bytes, err=%s, first difference at %d", len(out2), errStr(err2), firstDiff(out2, want)),
+					fmt.Sprintf("%d bytes then io.EOF", len(want)))
+			}
+		}
 	case "C02":
 		x := ref.DecodeXZ(sink, ref.XZOptions{})
 		ok := x.Err == nil && bytes.Equal(x.Out, want)
